@@ -8,7 +8,7 @@ def spellable(steps: list[dict]) -> bool:
     return True
 
 
-def render(steps: list[dict], style: int = 0, prefix: str = "") -> str:
+def render(steps: list[dict], style: int = 0, prefix: str = "", base: str = "ASTNode") -> str:
     """style 0: compact; 1: blanks between all tokens; 2: relative spelling of a leading '//' and '[]' for
     'no index'.  Class names get `prefix` (zoo prefix)."""
     out = ""
@@ -16,9 +16,9 @@ def render(steps: list[dict], style: int = 0, prefix: str = "") -> str:
     sp = " " if style == 1 else ""
     for k, st in enumerate(steps):
         f, i, c, anyw = st["f"], st["i"], st["c"], st["any"]
-        cls = None if c == "none" else (c if c == "ASTNode" else prefix + c)
+        cls = None if c == "none" else (base if c == "ASTNode" else prefix + c)
         if cls is None and (k == last or (f == "none" and i < 0)):
-            cls = "ASTNode"      # the last step must name a class; an empty step is spelled with the base class
+            cls = base           # the last step must name a class; an empty step is spelled with the base class
         sep = "//" if anyw else "/"
         if k == 0 and anyw and style == 2:
             sep = ""             # a path not starting with '/' is the same as one starting with '//'
